@@ -34,11 +34,20 @@ import (
 //   dupc | duptx h=<n> | mtx tx=<id>                   repeated BlockConnected(tip) / RelevantTx / unmined tx
 //   raw k=<c|d> id=<k>                                 malformed stream: a notification the backend state does not justify
 //   stop | start recw=<n> | startx id=<k> mode=<m> | state | hashes from=<a> to=<b>
+//   disc                                               the backend connection is lost: ext/reorg move the backend silently
+//   reconnect recw=<n>                                 chain.ClientConnected again on the RUNNING wallet: syncWithChain runs once
+//                                                      more (rollback loop, recovery, rescan); its rescan is held in flight
+//   importkey k=<n> from=<h>                           ImportPrivateKey(rescan=true) from best-chain height h; rescan held in flight
+//   rfin                                               the backend reports the held rescan finished (RescanFinished for the tip
+//                                                      at the time of the request); every notification op may run in between
 //
 // Every reply that shows the running wallet ("run ...") ends with ` ntf=<n1>|<n2>|...`: the TransactionNotifications the
 // wallet's NotificationServer delivered to a client (registered before SynchronizeRPC) since the previous such reply,
 // each as `A=<height>:<block id>[<tx>+<tx>]/...,D=<block id>/...,U=<tx>` (attached blocks in order, detached block
 // hashes in order, newly added unmined transactions).
+
+// recentOps: the ops of the current case (diagnostics when a wallet shutdown hangs)
+var recentOps []string
 
 var namespaces = struct{ addr, tx []byte }{[]byte("waddrmgr"), []byte("wtxmgr")}
 
@@ -77,6 +86,16 @@ type syncRunner struct {
 	// NotificationServer client of the running wallet and the notification oracle's view
 	col      *ntfnCollector
 	cchain   []chainhash.Hash // the chain a client following the attached blocks has (index = height)
+
+	// backend connection / rescans in flight (ops disc, reconnect, importkey, rfin)
+	connected bool   // false between `disc` and `reconnect`: the backend evolves without the wallet being told
+	silent    bool   // the backend moved while disconnected
+	inflight  string // "" | "reconnect" | "import-rescan": a rescan whose RescanFinished is still to come
+	missed    bool   // the rescan in flight has something to catch up (reconnect after a silent evolution)
+	raceTaint bool   // a block notification arrived while a catching-up rescan was in flight: the race the TODO in
+	                 // catchUpHashes documents (DESIGN §6 C15: explored, not flagged) — oracles off for the rest of the case
+	replayOff bool   // the wallet rolled back / caught up silently inside syncWithChain (no attach/detach calls): a client
+	                 // following the TransactionNotifications cannot reconstruct the chain; replay oracle off until restart
 	sentDisc []chainhash.Hash // hashes of the BlockDisconnected notifications that make disconnectBlock notify, in order
 	gotDet   []chainhash.Hash // DetachedBlocks delivered so far, in order
 }
@@ -145,6 +164,7 @@ func (r *syncRunner) register() {
 	}
 	r.col = newCollector(r.env.w)
 	r.cchain, r.sentDisc, r.gotDet = nil, nil, nil
+	r.connected, r.silent, r.inflight, r.missed, r.replayOff = true, false, "", false, false
 }
 
 func (r *syncRunner) resetClientChain() {
@@ -255,7 +275,7 @@ func (r *syncRunner) ntfns() (string, string) {
 		}
 		out = append(out, "A="+strings.Join(as, "/")+",D="+strings.Join(ds, "/")+",U="+strings.Join(us, "/"))
 	}
-	if r.malformed {
+	if r.malformed || r.raceTaint {
 		return strings.Join(out, "|"), ""
 	}
 	for i, d := range r.gotDet {
@@ -271,7 +291,17 @@ func (r *syncRunner) ntfns() (string, string) {
 	if flushed && len(r.gotDet) < len(r.sentDisc) {
 		add(fmt.Sprintf("C15 key=ntfn.detached-missing: a notification with attached blocks was delivered but only %d of %d disconnected blocks were notified as detached", len(r.gotDet), len(r.sentDisc)))
 	}
-	if flushed {
+	if r.replayOff {
+		// attached-gap (collected above) and replay-mismatch presuppose that every tip change was notified
+		var keep []string
+		for _, x := range v {
+			if !strings.Contains(x, "key=ntfn.attached-gap") {
+				keep = append(keep, x)
+			}
+		}
+		v = keep
+	}
+	if flushed && !r.replayOff {
 		okc := len(r.cchain) == int(r.env.fc.tip().height)+1
 		for h := 0; okc && h < len(r.cchain); h++ {
 			if b := r.env.fc.at(int32(h)); b == nil || b.hash != r.cchain[h] {
@@ -332,6 +362,10 @@ func parseTxSpecs(s string) []txSpec {
 }
 
 func (r *syncRunner) Exec(op string) (string, string) {
+	if strings.HasPrefix(op, "init ") {
+		recentOps = recentOps[:0]
+	}
+	recentOps = append(recentOps, op)
 	reply, v := r.exec1(op)
 	if strings.HasPrefix(reply, "run ") {
 		ns, nv := r.ntfns()
@@ -359,6 +393,7 @@ func (r *syncRunner) exec1(op string) (string, string) {
 		r.env = env
 		r.txs, r.txID, r.blkTxs = map[int]*wire.MsgTx{}, map[chainhash.Hash]int{}, map[int][]txSpec{}
 		r.top, r.maxTip, r.malformed, r.zeroAt, r.broken, r.brokenReported, r.recoveryTaint = 0, 0, false, map[int32]bool{}, false, false, false
+		r.raceTaint = false
 		r.seen = map[int]txSpec{}
 		r.addrs = nil
 		r.recW = uint32(atoi(kv["recw"]))
@@ -405,6 +440,11 @@ func (r *syncRunner) exec1(op string) (string, string) {
 		if !r.env.running {
 			return r.state(), ""
 		}
+		if !r.connected {
+			r.silent = true
+			return r.state(), ""
+		}
+		r.noteRace()
 		if !r.connect(b, kv["mode"]) {
 			return "deliver-timeout", ""
 		}
@@ -433,9 +473,17 @@ func (r *syncRunner) exec1(op string) (string, string) {
 				return "bad-op", ""
 			}
 		}
+		if r.env.running && !r.connected {
+			r.silent = true
+			return r.state(), ""
+		}
 		if r.env.running {
+			r.noteRace()
 			for _, b := range dropped {
-				r.sentDisc = append(r.sentDisc, b.hash)
+				if r.env.w.ChainSynced() {
+					// disconnectBlock returns before notifyDetachedBlock while the wallet is not chain-synced
+					r.sentDisc = append(r.sentDisc, b.hash)
+				}
 				if !r.env.fc.deliver(chain.BlockDisconnected(b.meta())) {
 					return "deliver-timeout", ""
 				}
@@ -453,7 +501,7 @@ func (r *syncRunner) exec1(op string) (string, string) {
 		return r.state(), r.oracle("ntfn")
 	case "stale":
 		b := r.env.fc.block(atoi(kv["id"]))
-		if b == nil || !r.env.running {
+		if b == nil || !r.env.running || !r.connected {
 			return "bad-op", ""
 		}
 		if on := r.env.fc.at(b.height); on == b {
@@ -468,35 +516,37 @@ func (r *syncRunner) exec1(op string) (string, string) {
 		}
 		after := r.state()
 		v := r.oracle("stale")
-		if before != after && !r.malformed {
+		if before != after && !r.malformed && !r.raceTaint {
 			v = joinV(v, "C15 key=stale-disconnect-changed-state: a disconnect for a block that is not on the best chain changed the wallet: "+before+" -> "+after)
 		}
 		return after, v
 	case "dupc":
-		if !r.env.running {
+		if !r.env.running || !r.connected {
 			return "bad-op", ""
 		}
+		r.noteRace()
 		before := r.state()
 		if !r.env.fc.deliver(chain.BlockConnected(r.env.fc.tip().meta())) {
 			return "deliver-timeout", ""
 		}
 		after := r.state()
 		v := r.oracle("dup")
-		if before != after && !r.malformed {
+		if before != after && !r.malformed && !r.raceTaint {
 			v = joinV(v, "C15 key=repeated-connect-changed-state: "+before+" -> "+after)
 		}
 		return after, v
 	case "duptx":
 		b := r.env.fc.at(int32(atoi(kv["h"])))
-		if b == nil || !r.env.running {
+		if b == nil || !r.env.running || !r.connected {
 			return "bad-op", ""
 		}
+		r.noteRace()
 		if !r.sendTxs(b) {
 			return "deliver-timeout", ""
 		}
 		return r.state(), r.oracle("dup")
 	case "mtx":
-		if !r.env.running {
+		if !r.env.running || !r.connected {
 			return "bad-op", ""
 		}
 		tx := r.mkTx(txSpec{atoi(kv["tx"]), false})
@@ -508,7 +558,7 @@ func (r *syncRunner) exec1(op string) (string, string) {
 		return r.state(), r.oracle("ntfn")
 	case "raw":
 		b := r.env.fc.block(atoi(kv["id"]))
-		if b == nil || !r.env.running {
+		if b == nil || !r.env.running || !r.connected {
 			return "bad-op", ""
 		}
 		r.malformed = true
@@ -531,7 +581,81 @@ func (r *syncRunner) exec1(op string) (string, string) {
 			r.col = nil
 		}
 		r.env.stop()
+		r.connected, r.silent, r.inflight, r.missed = true, false, "", false
 		return r.state(), ""
+	case "disc":
+		if !r.env.running || !r.connected || r.inflight != "" {
+			return "bad-op", ""
+		}
+		r.connected = false
+		return r.state(), ""
+	case "reconnect":
+		if !r.env.running || r.inflight != "" || uint32(atoi(kv["recw"])) != r.recW {
+			return "bad-op", ""
+		}
+		if _, ok := kv["recw"]; !ok {
+			return "bad-op", ""
+		}
+		r.missed = r.silent
+		if r.silent {
+			r.replayOff = true
+		}
+		if !r.env.reconnect(1500 * time.Millisecond) {
+			if r.col != nil {
+				r.col.stop()
+				r.col = nil
+			}
+			r.env.stop()
+			r.connected, r.silent, r.inflight, r.missed = true, false, "", false
+			v := ""
+			if !r.malformed && !r.raceTaint {
+				// the generator only reconnects against a best chain at least as high as the wallet's tip
+				v = fmt.Sprintf("C15 key=reconnect-stuck: after a valid evolution of the backend while the connection was down, syncWithChain never gets to the rescan (backend tip %d)", r.env.fc.tip().height)
+			}
+			return "sync-stuck", v
+		}
+		r.connected, r.silent, r.inflight = true, false, "reconnect"
+		if t := r.env.fc.tip().height; t > r.maxTip && r.recW > 0 {
+			r.maxTip = t // recovery marks the wallet synced to every block it scans
+		}
+		return r.state(), r.oracle("reconnect")
+	case "importkey":
+		from := r.env.fc.at(int32(atoi(kv["from"])))
+		if _, ok := kv["from"]; !ok || !r.env.running || !r.connected || r.inflight != "" || from == nil {
+			return "bad-op", ""
+		}
+		if _, ok := kv["k"]; !ok {
+			return "bad-op", ""
+		}
+		if err := r.env.importKey(atoi(kv["k"]), from, 5*time.Second); err != nil {
+			return "err import " + err.Error(), ""
+		}
+		r.inflight, r.missed = "import-rescan", false
+		return r.state(), r.oracle("import-rescan")
+	case "rfin":
+		if !r.env.running || r.inflight == "" {
+			return "bad-op", ""
+		}
+		ctx := r.inflight
+		if !r.env.fc.finishHeld() {
+			return "deliver-timeout", ""
+		}
+		if ctx == "import-rescan" {
+			// Unchanged-tree shutdown hang (notes/C15.md "Shutdown hang"): rescanBatchHandler hands RescanFinished over
+			// to rescanProgressHandler in a select that also listens on quit; when Stop() wins, it sends
+			// ErrWalletShuttingDown on the job's error channel, which ImportPrivateKey never drains (it still holds the
+			// rescan RPC's nil) — the goroutine blocks for ever and WaitForShutdown never returns.  Give the hand-over
+			// time to complete before a following `stop` (env.stop has a timeout for the case it still happens).
+			time.Sleep(2 * time.Millisecond)
+		}
+		r.inflight, r.missed = "", false
+		if t := r.env.fc.tip().height; t > r.maxTip && ctx == "reconnect" {
+			// catchUpHashes may have marked the wallet synced up to the height the rescan reported
+			if h := r.env.w.Manager.SyncedTo().Height; h > r.maxTip {
+				r.maxTip = h
+			}
+		}
+		return r.state(), r.oracle(ctx)
 	case "start":
 		if r.env.running {
 			return "bad-op", ""
@@ -573,6 +697,7 @@ func (r *syncRunner) exec1(op string) (string, string) {
 		if err := r.env.reopen(0); err != nil {
 			return "err open " + err.Error(), ""
 		}
+		r.recW = 0
 		r.register()
 		r.resetClientChain()
 		mode := kv["mode"]
@@ -621,6 +746,16 @@ func (r *syncRunner) exec1(op string) (string, string) {
 		return "hashes=" + r.hashes(int32(atoi(kv["from"])), int32(atoi(kv["to"]))), ""
 	}
 	return "bad-op", ""
+}
+
+// noteRace: a block / transaction notification is about to be delivered while a rescan that has something to catch up
+// is in flight.  The wallet's sync point is below the heights the rescan reports transactions for, so a disconnect of
+// such a block is "in the future" for disconnectBlock and its records stay: the reorg-during-rescan race the TODO in
+// catchUpHashes documents.  DESIGN §6 C15 puts it outside the property's text: explored (differential), not flagged.
+func (r *syncRunner) noteRace() {
+	if r.inflight != "" && r.missed {
+		r.raceTaint = true
+	}
 }
 
 // noteZero records that the synced-to hash is all-zero right now (attribution of later consequences).
@@ -818,6 +953,16 @@ func (r *syncRunner) state() string {
 // whose remembered hash had been zero, so that its disconnect was taken for a stale one; a start-up that cannot find
 // a common block); everything else keeps a generic key.
 func (r *syncRunner) oracle(ctx string) string {
+	if r.raceTaint || !r.connected {
+		return ""
+	}
+	if r.inflight != "" && r.env.running && (r.missed || !r.env.w.ChainSynced()) {
+		// A rescan is in flight and the wallet does not claim to be in sync with the backend (it still has to catch
+		// up, or — on a changed tree — it reports itself as not chain-synced): DESIGN §6 C15 excludes the not-yet-synced
+		// window.  The window closes with `rfin`; the oracles are evaluated then, on the quiescent wallet that reports
+		// itself chain-synced again, and after every later op.
+		return ""
+	}
 	v := r.oracle1(ctx)
 	if v != "" && ctx == "startup-recovery" {
 		r.recoveryTaint = true
@@ -1024,6 +1169,7 @@ type syncGen struct {
 	gt      int64
 	running bool
 	tags    map[string]bool
+	nextKey int
 	shallow bool         // only depth-1 reorgs whose fork height is not zero-marked (keeps clear of the zero-hash cascade)
 	zero    map[int]bool // heights whose remembered hash is all-zero if disconnectBlock has the quirk
 }
@@ -1187,6 +1333,13 @@ func (g *syncGen) offline(recw int) {
 		g.tags["block-during-rescan"] = true
 		return
 	}
+	g.unseenEvolution(wtip, "restart-after-reorg")
+	g.emit("start recw=%d", recw)
+}
+
+// unseenEvolution: the backend moves while the wallet is not told (stopped, or its connection is down), ending at least
+// as high as the wallet's tip wtip.
+func (g *syncGen) unseenEvolution(wtip int, reorgTag string) {
 	switch g.rng.Intn(4) {
 	case 0: // nothing happened
 	case 1: // pure extension
@@ -1205,9 +1358,115 @@ func (g *syncGen) offline(recw int) {
 		for len(g.best)-1 < wtip {
 			g.extend()
 		}
-		g.tags["restart-after-reorg"] = true
+		g.tags[reorgTag] = true
 	}
-	g.emit("start recw=%d", recw)
+}
+
+// windowSteps: n notification steps while a rescan is in flight on the running wallet (between the rescan request and
+// its RescanFinished): extensions, reorgs with wallet transactions in the dropped blocks (longer, equal, shorter and
+// empty new branches), stale / repeated notifications.
+func (g *syncGen) windowSteps(n int) {
+	for i := 0; i < n; i++ {
+		switch x := g.rng.Intn(20); {
+		case x < 4:
+			g.extend()
+		case x < 12:
+			g.reorg(4, func(d int) int { return d + g.rng.Intn(3) - g.rng.Intn(2)*g.rng.Intn(2) })
+			g.tags["reorg-during-rescan"] = true
+		case x < 14:
+			g.reorg(3, func(d int) int { return 0 })
+			g.tags["reorg-during-rescan"] = true
+		case x < 16:
+			if id, ok := g.staleID(); ok {
+				g.emit("stale id=%d", id)
+			} else {
+				g.extend()
+			}
+		case x < 17:
+			g.emit("dupc")
+		case x < 18:
+			g.emit("duptx h=%d", g.rng.Intn(len(g.best)))
+		case x < 19:
+			g.emit("mtx tx=%d", g.nextTx)
+			g.nextTx++
+		default:
+			g.emit("state")
+		}
+	}
+}
+
+// txBlock extends the best chain by a block that holds at least one wallet transaction.
+func (g *syncGen) txBlock() {
+	t := txSpec{g.nextTx, false}
+	g.nextTx++
+	id := g.newBlock(g.tip(), []txSpec{t})
+	g.best = append(g.best, id)
+	delete(g.zero, len(g.best)-1)
+	g.emit("ext id=%d mode=%s", id, g.mode())
+}
+
+// importRescan: a private key is imported with rescan=true on the running, synced wallet; the backend keeps the rescan
+// in flight while `win` notification steps happen; then RescanFinished — or the wallet is stopped with the rescan
+// still in flight and restarted.
+func (g *syncGen) importRescan(win int, recw int) {
+	if g.rng.Intn(2) == 0 {
+		g.txBlock() // a wallet transaction near the tip, where the reorgs of the window reach it
+	}
+	g.nextKey++
+	g.emit("importkey k=%d from=%d", g.nextKey, g.rng.Intn(len(g.best)))
+	g.tags["import-rescan"] = true
+	g.windowSteps(win)
+	if g.rng.Intn(8) == 0 {
+		g.offline(recw)
+		g.tags["stop-with-rescan-in-flight"] = true
+		return
+	}
+	g.emit("rfin")
+}
+
+// reconnect: the backend connection is re-established on the running wallet.  silent = the connection was down for a
+// while and the backend moved meanwhile (then nothing happens while the catching-up rescan is in flight, except when
+// race is set: explored only).
+func (g *syncGen) reconnect(silent bool, win int, recw int, race bool) {
+	if silent {
+		g.emit("disc")
+		g.running = false
+		g.unseenEvolution(len(g.best)-1, "reconnect-after-reorg")
+		g.running = true
+		g.emit("reconnect recw=%d", recw)
+		g.tags["reconnect-missed-blocks"] = true
+		if race {
+			// block notifications while the catching-up rescan is in flight: explored only (differential).  The
+			// backend never gets lower than the height the rescan will report: a catchUpHashes transaction that
+			// fails half-way leaves waddrmgr's in-memory sync point ahead of the database (C08's subject, not
+			// modelled here).
+			for i := 0; i < 1+g.rng.Intn(2); i++ {
+				switch g.rng.Intn(4) {
+				case 0:
+					g.extend()
+				case 1:
+					g.emit("dupc")
+				default:
+					g.reorg(3, func(d int) int { return d + g.rng.Intn(2) })
+				}
+			}
+			g.tags["rescan-race"] = true
+		}
+		g.emit("rfin")
+		return
+	}
+	if g.rng.Intn(2) == 0 {
+		g.txBlock()
+	}
+	g.emit("reconnect recw=%d", recw)
+	g.tags["reconnect"] = true
+	g.windowSteps(win)
+	if g.rng.Intn(10) == 0 {
+		g.offline(recw)
+		g.tags["stop-with-rescan-in-flight"] = true
+		return
+	}
+	g.emit("rfin")
 }
 
 func (syncEngine) Generate(rng *rand.Rand, tier string) []core.Case {
@@ -1349,6 +1608,103 @@ func (syncEngine) Generate(rng *rand.Rand, tier string) []core.Case {
 			}
 		}
 		fin(g, "malformed-stream")
+	}
+	// ---- rescans on a running, synced wallet (round-2 seeds C02-4, C15-5) ----
+	// scripted: the two histories of the seeds' demos and their closest variants
+	script := func(tag string, f func(g *syncGen)) {
+		g := mk(0)
+		f(g)
+		fin(g, "valid-evolution", "rescan-in-flight", tag)
+	}
+	chain := func(g *syncGen, n int) {
+		for j := 0; j < n; j++ {
+			g.extend()
+		}
+	}
+	// reconnect, then the tip (holding a wallet transaction) is disconnected before RescanFinished
+	script("reconnect-then-disconnect", func(g *syncGen) {
+		chain(g, 2)
+		g.txBlock()
+		g.emit("reconnect recw=0")
+		g.reorg(1, func(int) int { return 0 })
+		g.emit("rfin")
+		g.extend()
+		g.emit("stop")
+		g.running = false
+		g.emit("start recw=0")
+		g.running = true
+	})
+	// reconnect, depth-2 reorg to a longer branch before RescanFinished
+	script("reconnect-then-reorg", func(g *syncGen) {
+		chain(g, 2)
+		g.txBlock()
+		g.extend()
+		g.emit("reconnect recw=0")
+		g.reorg(2, func(d int) int { return d + 1 })
+		g.emit("rfin")
+		g.extend()
+	})
+	// import with rescan; depth-2 reorg (wallet transaction in the lower dropped block) while the rescan is in flight
+	script("import-then-reorg", func(g *syncGen) {
+		chain(g, 3)
+		g.txBlock()
+		g.extend()
+		g.emit("importkey k=1 from=1")
+		g.reorg(2, func(d int) int { return d + 1 })
+		g.emit("rfin")
+		g.extend()
+		g.emit("stop")
+		g.running = false
+		g.emit("start recw=0")
+		g.running = true
+		g.extend()
+	})
+	// import with rescan; the reorg's disconnects arrive before, its connects after RescanFinished
+	script("import-rescan-finished-mid-reorg", func(g *syncGen) {
+		chain(g, 3)
+		g.txBlock()
+		g.txBlock()
+		g.emit("importkey k=1 from=0")
+		g.reorg(2, func(int) int { return 0 })
+		g.emit("rfin")
+		chain(g, 3)
+		g.emit("importkey k=2 from=2")
+		g.emit("rfin")
+	})
+	nw := n / 3
+	if nw > 40 {
+		nw = 40
+	}
+	for i := 0; i < nw; i++ {
+		g := mk(0)
+		for j := 0; j < steps/2; j++ {
+			if j%5 == 4 {
+				g.importRescan(g.rng.Intn(4), 0)
+			} else {
+				g.step(true, 0)
+			}
+		}
+		fin(g, "valid-evolution", "rescan-in-flight")
+	}
+	for i := 0; i < nw; i++ {
+		recw := 0
+		if i%3 == 2 {
+			recw = 1 + rng.Intn(5)
+		}
+		g := mk(recw)
+		for j := 0; j < steps/2; j++ {
+			switch {
+			case j%5 == 4 && rng.Intn(3) == 0:
+				g.reconnect(true, 0, recw, rng.Intn(6) == 0)
+			case j%5 == 4:
+				g.reconnect(false, rng.Intn(4), recw, false)
+			case j%11 == 7:
+				g.importRescan(g.rng.Intn(3), recw)
+			default:
+				g.step(true, recw)
+			}
+		}
+		fin(g, "valid-evolution", "rescan-in-flight", "backend-reconnect")
 	}
 	if tier == "thorough" {
 		// one long chain crossing the MaxReorgDepth pruning window, with reorgs near the far edge
